@@ -936,8 +936,13 @@ func runParent(c *Check, tier string, root uint64) int {
 	ev := evidence{PropertyID: c.ID, Tier: tier, Seed: int64(root & 0x7fffffffffffffff), Level: c.Level, Coverage: cov,
 		Assumptions: c.Assumptions, WallS: wall, Violations: len(lines)}
 	eb, _ := json.MarshalIndent(ev, "", " ")
-	os.MkdirAll(filepath.Join(verifDir(), "evidence"), 0755)
-	if err := os.WriteFile(filepath.Join(verifDir(), "evidence", c.ID+".json"), eb, 0644); err != nil {
+	evDir := filepath.Join(verifDir(), "evidence")
+	if os.Getenv("VERIF_DIR_EVIDENCE_SKIP") != "" {
+		// runs against a deliberately changed tree (tools/trymutant.sh) must not overwrite the evidence of /repo
+		evDir = os.Getenv("VERIF_SCRATCH_RUN")
+	}
+	os.MkdirAll(evDir, 0755)
+	if err := os.WriteFile(filepath.Join(evDir, c.ID+".json"), eb, 0644); err != nil {
 		fmt.Fprintln(os.Stderr, err)
 		return 2
 	}
